@@ -143,6 +143,7 @@ def run(chk, replay=None):
         [dict(base), {}, 0],
         [dict(base, align="dpd1"), {}, 0],
         [dict(base, align="dpd1", stable="all"), {}, 0],
+        [dict(base, align="dpd2"), {}, 0],   # another reference subsystem (shares module-level state with dpd1)
         [dict(base, align="dpd1", stable="all", scalar=1), {"R1": "bwff"}, 0],
         [dict(base, align="axis", stable="one"), {}, 0],
         [dict(base, stable="all", coup=1), {"R1": "bw"}, 0],
